@@ -470,15 +470,7 @@ func rangeOverLen(fn *ssa.Function, idx ssa.Value, ls ssa.Value) bool {
 func checkLogsProbe(c *Ctx, rule string) {
 	w := c.W
 	fn := w.Fn("jrpc2", "(*Client).logs")
-	var pStart, pLimit *ssa.Parameter
-	for _, p := range fn.Params {
-		switch p.Name() {
-		case "start":
-			pStart = p
-		case "limit":
-			pLimit = p
-		}
-	}
+	pStart, pLimit, stack := requestedRange(w, fn)
 	enc := w.Fn("eth", "EncodeUint64")
 	isEnc := func(v ssa.Value, want func(ssa.Value) bool) bool {
 		call, ok := v.(*ssa.Call)
@@ -488,12 +480,12 @@ func checkLogsProbe(c *Ctx, rule string) {
 		if v == ssa.Value(pStart) {
 			return true
 		}
-		u := deepUnfold(cv(v)) // want.first() with want = span{start, limit}
+		u := deepUnfold(cval{v: v, stack: stack}) // want.first() with want = span{start, limit}
 		return u.top() && u.v == ssa.Value(pStart)
 	}
 	probeAff := &affEnv{}
 	isLast := func(v ssa.Value) bool { // start+limit-1
-		if linEq(affOfC(probeAff, cv(v), 0), probeAff.Of(pStart).add(probeAff.Of(pLimit)).sub(konst(1))) {
+		if linEq(affOfC(probeAff, cval{v: v, stack: stack}, 0), probeAff.Of(pStart).add(probeAff.Of(pLimit)).sub(konst(1))) {
 			return true
 		}
 		var terms []ssa.Value
@@ -2257,4 +2249,39 @@ func memberLeaves(reg *Region, v ssa.Value) ([]ssa.Value, bool) {
 		out = append(out, rv)
 	}
 	return out, len(out) > 0
+}
+
+// requestedRange: the (start, limit) a fetch routine was asked for: its own parameters of those names, or –
+// when the range is handed in as one value (`asked span`) – the parameters of its only caller, together with
+// the call site through which the routine's values are to be read (unfold.go).
+func requestedRange(w *World, fn *ssa.Function) (pStart, pLimit *ssa.Parameter, stack []*ssa.Call) {
+	named := func(f *ssa.Function) (a, b *ssa.Parameter) {
+		for _, p := range f.Params {
+			switch p.Name() {
+			case "start":
+				a = p
+			case "limit":
+				b = p
+			}
+		}
+		return
+	}
+	pStart, pLimit = named(fn)
+	if pStart != nil && pLimit != nil {
+		return pStart, pLimit, nil
+	}
+	var sites []*ssa.Call
+	for _, g := range w.RepoFuncs() {
+		if !takesTestingTB(g) {
+			sites = append(sites, callsToFn(g, fn)...)
+		}
+	}
+	if len(sites) == 1 {
+		pStart, pLimit = named(sites[0].Parent())
+		stack = []*ssa.Call{sites[0]}
+	}
+	if pStart == nil || pLimit == nil {
+		fatalf("anchor: the requested range (start, limit) of %s is not identified", fnName(fn))
+	}
+	return
 }
